@@ -444,6 +444,24 @@ Section Programs.
   Definition collect_prog (b : N) : list instr :=
     [Acq (SLock R_LOCK); TblCopy 0 RC; Load 5 TI; Rel (SLock R_LOCK); ForSnap 0 1 b].
 
+  (* registry.register(c) for a collector that describes SEVERAL names (a Counter describes x, x_total, x_created; a
+     Histogram five names): with self._lock: names = describe(); any name already recorded? raise; record every name;
+     record the collector *)
+  Definition dupcheck_prog (rb : reg) (ks : list key) : list instr :=
+    flat_map (fun k => [TblLookup rb RN k; JmpIf false rb 1; Raise]) ks.
+  Definition register_names_prog (rb : reg) (c : N) (ks : list key) : list instr :=
+    Acq (SLock R_LOCK) :: dupcheck_prog rb ks ++ map (fun k => TblInsert RN k (IConst c)) ks
+    ++ [TblLookup rb RC c; TblInsert RC c (IConst c); Rel (SLock R_LOCK)].
+  (* registry.unregister(c) for such a collector: every recorded name is released, then the collector *)
+  Definition unregister_names_prog (rb : reg) (c : N) (ks : list key) : list instr :=
+    Acq (SLock R_LOCK) :: TblLookup rb RC c :: JmpIf true rb 1 :: Raise ::
+    map (fun k => TblDel RN k) ks ++ [TblDel RC c; Rel (SLock R_LOCK)].
+  (* metrics.MetricWrapperBase.__init__ with a registry: the parent fields / the value objects are prepared first
+     (_metric_init: nc value objects, each taking the store lock once in the file-backed back-end; a labelled parent
+     allocates none), and only then is the finished metric published by registry.register(self) *)
+  Definition construct_prog (rb : reg) (c : N) (ks : list key) (nc : nat) : list instr :=
+    ctor_prog nc ++ register_names_prog rb c ks.
+
   Inductive op :=
     | OInc (x : lref) (a : Z) | OSet (x : lref) (v : Z) | OGet (x : lref) (locked exsec : bool)
     | OLabels (tb : tbl) (k : key) (nc : nat)
@@ -452,7 +470,9 @@ Section Programs.
     | OMulti (tb : tbl) (b : N)
     | ORegister (c : N) | OUnregister (c : N) | OLookup (n : N)
     | OCollect (b : N) | OCallReg
-    | OUserAcq (u : N) | OUserRel (u : N).
+    | OUserAcq (u : N) | OUserRel (u : N)
+    | OConstruct (c : N) (ks : list key) (nc : nat)
+    | OUnregisterN (c : N) (ks : list key).
 
   Definition compile_op (rb : reg) (o : op) : list instr :=
     match o with
@@ -471,6 +491,8 @@ Section Programs.
     | OCallReg => [Callout (IReg 1)]
     | OUserAcq u => [Acq (SLock (50 + u))]
     | OUserRel u => [Rel (SLock (50 + u))]
+    | OConstruct c ks nc => construct_prog rb c ks nc
+    | OUnregisterN c ks => unregister_names_prog rb c ks
     end.
   Fixpoint compile_from (rb : reg) (ops : list op) : list instr :=
     match ops with [] => [] | o :: r => compile_op rb o ++ compile_from (rb + 4) r end.
